@@ -52,6 +52,8 @@ struct Scenario {
 	std::vector<StopPlan> stops;             // a tool is stopped and later continued: a delay the driver must not mistake for an exit
 	std::vector<std::string> missing_tools;   // tool names absent from PATH
 	bool readlink_fail = false;
+	bool stdin_closed = false;      // the driver is started without descriptor 0 (cproc ... <&-)
+	bool sigchld_ignored = false;   // the driver inherits SIGCHLD = SIG_IGN: the kernel reaps children itself, wait() ends with ECHILD
 	int stray_exit_step = -1;                 // -1: no stray child
 	int stray_status = 0;
 	int pipe_cap = 2;
